@@ -11,6 +11,7 @@ From Spil Require Import Base.Str Base.Dict Base.Outcome Regex.Re Conf.Conf Conf
   Search.Unfold Search.FindList Search.Finders Search.FindListProofs Search.FindersProofs FS.Fs Data.Data Data.VersionProofs Data.VersionOrderProofs Data.DataSpecProofs.
 From Spil Require Import Base.PyPath Sid.Query Sid.SidProofs Path.UnambiguousDefs Path.UnambiguousProofs Search.GlobProofs
   Search.TreeListDefs Search.TreeListProofs Data.SidLevelDefs Data.SidLevelProofs Data.SidLevelLast.
+From Spil Require Import Data.CreateDefs Data.PublishDefs Data.PublishLemmas Data.PublishProofs Driver.DispatchFs.
 From SpilGen Require Hamlet.
 Import ListNotations.
 Local Open Scope string_scope.
@@ -259,3 +260,71 @@ Proof.
   - exact Hplain0.
 Qed.
 Print Assumptions C18_instance_greatest.
+
+(** ** get_new and publishing chains over a data set materialised as a tree (Data/PublishProofs.v).
+    [chain_top E x n]: the versions of x that exist are of the form "v"+3 digits, at most n, and n itself exists (or n = 0: none).
+    [vsid x w]: x with its version set to w (every other field unchanged, same type).  All guards are computed booleans. *)
+
+(* get_new: the successor of the last existing version - which does not exist yet - or the empty Sid beyond v999 *)
+Theorem C18_get_new :
+  forall (c : Conf) (Ld : Loaded) (Rt : Routing) (id cfg : string) (x : sid) (E : list sid) (F : fs) (n : nat) (y : sid),
+  load c = Some Ld ->
+  wf_loadedb Ld = true ->
+  paths_unambiguousb Ld = true ->
+  version_confb Ld = true ->
+  chain_guardb Ld Rt id cfg x = true ->
+  dataset_okb Ld cfg E F = true ->
+  forallb plain_memberb E = true ->
+  chain_topb E x n = true ->
+  get_new Ld Rt F x "version" = Ok y ->
+  y = (if (S n <? 1000)%nat then vsid x (vname (S n)) else empty_sid) /\ ~ In (vsid x (vname (S n))) E.
+Proof. exact get_new_b. Qed.
+Print Assumptions C18_get_new.
+
+(* publishing get_new k times: the k (or, at the end of the range, 999 - n) next versions, in order, each new, the data set
+   growing accordingly; once v999 exists the chain yields the empty Sid and creates nothing *)
+Theorem C18_publish_chain :
+  forall (c : Conf) (Ld : Loaded) (Rt : Routing) (id cfg0 : string) (x : sid) (E : list sid) (F : fs) 
+    (n k : nat) (F' : fs) (out : list string),
+  load c = Some Ld ->
+  wf_loadedb Ld = true ->
+  paths_unambiguousb Ld = true ->
+  version_confb Ld = true ->
+  rt_touch Rt = true ->
+  chain_guardb Ld Rt id (default_cfg Ld cfg0) x = true ->
+  dataset_okb Ld (default_cfg Ld cfg0) E F = true ->
+  fs_invb F = true ->
+  forallb plain_memberb E = true ->
+  chain_topb E x n = true ->
+  creatableb Ld (default_cfg Ld cfg0) x n k = true ->
+  publish_chain Ld Rt F cfg0 x k [] = Ok (F', out) ->
+  let j := Nat.min k (999 - n) in
+  out = (map s_string (published x n j) ++ (if (k <=? 999 - n)%nat then [] else [""]))%list /\
+  (exists E' : list sid,
+     dataset_ok Ld (default_cfg Ld cfg0) E' F' /\
+     chain_top E' x (n + j) /\ incl E E' /\ (forall e : sid, In e (published x n j) -> In e E' /\ ~ In e E)).
+Proof. exact publish_chain_b. Qed.
+Print Assumptions C18_publish_chain.
+
+(* the published versions are strictly increasing and pairwise distinct *)
+Theorem C18_published_increasing :
+  forall (x : sid) (n j i i' : nat),
+  n + j < 1000 ->
+  1 <= i ->
+  i < i' -> i' <= j -> str_ltb (vname (n + i)) (vname (n + i')) = true /\ vsid x (vname (n + i)) <> vsid x (vname (n + i')).
+Proof. exact published_increasing. Qed.
+Print Assumptions C18_published_increasing.
+
+(* instance on the configuration of this run (the data set E0 / F0 above: versions v001, v002 of one task) *)
+Example C18_publish_instance :
+  version_confb Hamlet.the_loaded = true /\
+  chain_guardb Hamlet.the_loaded Rt0 (fst fp) (snd fp) v1 = true /\
+  chain_topb E0 v1 2 = true /\ fs_invb F0 = true /\
+  creatableb Hamlet.the_loaded (snd fp) v1 2 3 = true /\
+  get_new Hamlet.the_loaded Rt0 F0 v1 "version" = Ok (mk0 "hamlet/a/char/ophelia/model/v003") /\
+  match publish_chain Hamlet.the_loaded Rt0 F0 "" v1 3 [] with
+  | Ok (_, out) => out
+  | Raise _ => []
+  end = ["hamlet/a/char/ophelia/model/v003"; "hamlet/a/char/ophelia/model/v004"; "hamlet/a/char/ophelia/model/v005"].
+Proof. vm_compute. repeat split; reflexivity. Qed.
+Print Assumptions C18_publish_instance.
